@@ -10,7 +10,7 @@ rm -rf "$WT"; git -C /repo worktree prune; mkdir -p /tmp/confirm
 git -C /repo worktree add -q --detach "$WT" HEAD || exit 3
 cp /repo/Cargo.lock "$WT/"; mkdir -p "$WT/.cargo" "$WT/tests"; printf '[net]\noffline = true\n' > "$WT/.cargo/config.toml"
 cp "$DEL/demo.rs" "$WT/tests/demo_$ID.rs"
-export CARGO_TARGET_DIR="/tmp/confirm-target"
+export CARGO_TARGET_DIR="${CONFIRM_TARGET:-/tmp/confirm-target}"
 FEAT=""; grep -q "verif_hooks\|verif_wnaf" "$DEL/demo.rs" && FEAT="--features verif-hooks"
 cd "$WT" || exit 3
 {
